@@ -210,6 +210,7 @@ pub fn install_hook(oracle: OracleRef, registry: RegistryRef, ledger: LedgerRef)
                         }
                     }
                     None => {
+                        o.max_committed = o.max_committed.max(e.index);
                         led.by_index.insert(
                             e.index,
                             LedgerEntry { term: e.term, hash: hsh, entry: e.clone(), first_reporter: v.node_id, vtime_ms: crate::oracle::vnow() },
